@@ -206,7 +206,7 @@ def instance_leaves(T, rng, fails, rep, K):
     n = 0
     for d in decs:
         builds = [
-            ("BAL", lambda: M.BAL(name="n", desc="d", baltype="DOLLAR", value=d, dtbal=datetime.datetime(2020, 1, 1, tzinfo=utc))),
+            ("BAL", lambda: M.BAL(name="n", desc="d", baltype="DOLLAR", value=d, dtasof=datetime.datetime(2020, 1, 1, tzinfo=utc))),
             ("LEDGERBAL", lambda: M.LEDGERBAL(balamt=d, dtasof=datetime.datetime(2020, 1, 1, tzinfo=utc))),
             ("STMTTRN", lambda: M.STMTTRN(trntype="DEBIT", dtposted=datetime.datetime(2020, 1, 1, tzinfo=utc), trnamt=d, fitid="1", name=S.rand_string(rng, 8) or "x")),
         ]
@@ -248,7 +248,6 @@ RULE = ("unconvert stream: decimals across the whole range (coefficients of 1..3
 def run(rep, tier, rng):
     T = S.types()
     import ofxtools.utils as U
-    importlib.reload(U)
     thorough = tier == "thorough"
     deep = S.is_deep()
     rep.extra["deep_setting"] = deep
@@ -358,7 +357,6 @@ def run(rep, tier, rng):
 def replay(obj):
     T = S.types()
     import ofxtools.utils as U
-    importlib.reload(U)
     r = obj["replay"]
     bad = False
     if r.get("kind") == "wire":
